@@ -40,6 +40,15 @@ pub struct Scenario {
     pub corrupt: Option<(usize, usize)>, // (column, step)
     #[serde(default)]
     pub expect: String,
+    #[serde(default)]
+    pub corruptions: Vec<Corruption>,
+}
+
+#[derive(Deserialize, Clone, Debug)]
+pub struct Corruption {
+    pub c: usize,
+    pub i: usize,
+    pub violated: bool,
 }
 
 pub fn ext_of(e: u32) -> FieldExtension {
@@ -158,6 +167,124 @@ impl Job for Complete {
     }
 }
 
+// ---------------------------------------------------------------------------------------------------------
+// C02: corrupted cells and perturbed statements
+// ---------------------------------------------------------------------------------------------------------
+/// Reference validity predicate, independent of the library's constraint evaluation: every enforced transition is the
+/// functional step and every asserted cell holds the claimed value.
+pub fn reference_valid<B: SField>(shape: &Shape, cols: &[Vec<B>], inputs: &ShapeInputs<B>) -> bool {
+    let pv = shape.periodic_values::<B>();
+    let n = shape.n;
+    for j in 0..(n - shape.exempt) {
+        let cur: Vec<B> = cols.iter().map(|c| c[j]).collect();
+        let next = shape.step_fn(&cur, j, &pv);
+        for c in 0..shape.width {
+            if cols[c][j + 1] != next[c] {
+                return false;
+            }
+        }
+    }
+    for (a, vals) in shape.asserts.iter().zip(inputs.values.iter()) {
+        for (x, s) in shape.steps_of(a).iter().enumerate() {
+            let v = if vals.len() == 1 { vals[0] } else { vals[x] };
+            if cols[a.col][*s] != v {
+                return false;
+            }
+        }
+    }
+    true
+}
+
+pub struct Sound;
+impl Job for Sound {
+    fn run<B: SField, H: ElementHasher<BaseField = B> + Sync + Send>(&mut self, sc: &Scenario) -> Value {
+        use winter_air::proof::Context;
+        use winter_air::TraceInfo;
+        let b = build::<B>(sc);
+        let honest_valid = reference_valid(&sc.shape, &b.cols, &b.inputs);
+        let mut out = json!({"id": sc.id, "honest_ref_valid": honest_valid});
+        // ---- corrupted cells -------------------------------------------------------------------------------
+        let mut cells = vec![];
+        for k in &sc.corruptions {
+            let mut cols = b.cols.clone();
+            cols[k.c][k.i] += B::ONE;
+            let ref_valid = reference_valid(&sc.shape, &cols, &b.inputs);
+            let (prove, verdict) = match prove_with::<B, H, DefaultRandomCoin<H>>(sc, cols, Some(b.inputs.clone())) {
+                Ok(p) => ("ok".to_string(), res_json(&verify_with::<B, H, DefaultRandomCoin<H>>(p, b.inputs.clone()))),
+                Err(e) => (e, json!("n/a")),
+            };
+            cells.push(json!({"c": k.c, "i": k.i, "violated": k.violated, "ref_valid": ref_valid, "prove": prove, "verify": verdict}));
+        }
+        out["cells"] = json!(cells);
+        // ---- perturbed statements on an honest proof ---------------------------------------------------------
+        let proof = match prove_with::<B, H, DefaultRandomCoin<H>>(sc, b.cols.clone(), None) {
+            Ok(p) => p,
+            Err(e) => {
+                out["honest_prove"] = json!(e);
+                return out;
+            },
+        };
+        let bytes = proof.to_bytes();
+        let fresh = || Proof::from_bytes(&bytes).unwrap();
+        out["honest_verify"] = res_json(&verify_with::<B, H, DefaultRandomCoin<H>>(fresh(), b.inputs.clone()));
+        let mut perts = vec![];
+        let mut add = |name: String, r: Result<(), String>| perts.push(json!({"what": name, "verify": res_json(&r)}));
+        // every public input value
+        for (ai, vals) in b.inputs.values.iter().enumerate() {
+            for vi in [0usize, vals.len() - 1] {
+                let mut inp = b.inputs.clone();
+                inp.values[ai][vi] += B::ONE;
+                add(format!("assertion {ai} value {vi} + 1"), verify_with::<B, H, DefaultRandomCoin<H>>(fresh(), inp));
+                if vals.len() == 1 {
+                    break;
+                }
+            }
+        }
+        // the statement's shape parameters that keep the description well-formed
+        {
+            let mut inp = b.inputs.clone();
+            inp.shape.exempt = if sc.shape.exempt > 1 { sc.shape.exempt - 1 } else { 2 };
+            add(format!("exemptions {} -> {}", sc.shape.exempt, inp.shape.exempt), verify_with::<B, H, DefaultRandomCoin<H>>(fresh(), inp));
+        }
+        // proof parameters and trace shape bound into the proof context
+        let o = &sc.opts;
+        let variants: Vec<(String, ProofOptions)> = vec![
+            ("queries".into(), ProofOptions::new(if o.q > 1 { o.q - 1 } else { 2 }, o.blowup, o.grind, ext_of(sc.ext), o.fold, o.rem)),
+            ("grinding".into(), ProofOptions::new(o.q, o.blowup, if o.grind > 0 { o.grind - 1 } else { 1 }, ext_of(sc.ext), o.fold, o.rem)),
+            ("folding".into(), ProofOptions::new(o.q, o.blowup, o.grind, ext_of(sc.ext), if o.fold == 2 { 4 } else { 2 }, o.rem)),
+            ("remainder".into(), ProofOptions::new(o.q, o.blowup, o.grind, ext_of(sc.ext), o.fold, if o.rem == 0 { 1 } else { (o.rem + 1) / 2 - 1 })),
+            ("blowup".into(), ProofOptions::new(o.q, if o.blowup == 128 { 64 } else { o.blowup * 2 }, o.grind, ext_of(sc.ext), o.fold, o.rem)),
+            ("extension".into(), ProofOptions::new(o.q, o.blowup, o.grind, ext_of(if sc.ext == 1 { 2 } else { 1 }), o.fold, o.rem)),
+        ];
+        for (name, opts) in variants {
+            let mut p = fresh();
+            let ti = p.context.trace_info().clone();
+            let r = guarded(|| Context::new::<B>(ti, opts));
+            match r {
+                Ok(ctx) => {
+                    p.context = ctx;
+                    add(format!("option {name}"), verify_with::<B, H, DefaultRandomCoin<H>>(p, b.inputs.clone()));
+                },
+                Err(_) => {},
+            }
+        }
+        for (name, ti) in [
+            ("trace length x2", guarded(|| TraceInfo::new(sc.shape.width, sc.shape.n * 2))),
+            ("trace meta", guarded(|| TraceInfo::with_meta(sc.shape.width, sc.shape.n, vec![1]))),
+        ] {
+            if let Ok(ti) = ti {
+                let mut p = fresh();
+                if let Ok(ctx) = guarded(|| Context::new::<B>(ti, options_of(sc))) {
+                    p.context = ctx;
+                    add(format!("{name}"), verify_with::<B, H, DefaultRandomCoin<H>>(p, b.inputs.clone()));
+                }
+            }
+        }
+        out["perturbations"] = json!(perts);
+        out
+    }
+}
+
 pub fn main(args: &[String]) -> i32 {
     use std::io::BufRead;
     let mode = args.get(0).map(|s| s.as_str()).unwrap_or("");
@@ -170,6 +297,7 @@ pub fn main(args: &[String]) -> i32 {
     for sc in &scs {
         let v = match mode {
             "complete" => dispatch(&mut Complete, sc),
+            "sound" => dispatch(&mut Sound, sc),
             m => {
                 eprintln!("harness: unknown stark mode {m}");
                 return 2;
